@@ -7,6 +7,9 @@ From J5V.gen Require Id62Gen RulesGen.
 From J5V.model Require Import ProtoPrint ProtoPrintFile ProtoParseFile.
 From J5V.proofs Require Import RulesProofs RulesReadProofs RulesGenProofs RulesReadGenProofs.
 From J5V.model Require Import RulesView RulesTextModel ProtoPrintFileWf RulesNested RulesInlineEnum.
+From J5V.model Require Import RulesCompile.
+From J5V.proofs Require Import RulesCompileProofs.
+From J5V.lib Require Import Strcase.
 From J5V.proofs Require Import ProtoPrintFileSemProofs ProtoPrintFileFullProofs RulesViewProofs RulesTextProofs RulesNestedProofs RulesInlineEnumProofs RulesEnumExactProofs.
 Import ListNotations.
 Local Open Scope N_scope.
@@ -66,6 +69,82 @@ Theorem C04_property :
     rt_ok d = true -> write_prop env idx d = Ok o -> read_prop env o = Ok (norm_prop env idx d).
 Proof. exact c04_prop. Qed.
 Print Assumptions C04_property.
+
+(* ---- the compiler as it is called, on the declaration language with multipleOf and
+   MapField.Ext (model/RulesCompile.v): front checks, writer, map annotation, link step.
+   The boundary stays an exact iff. [x_wf]: the two extras sit where schema.proto has them. *)
+Theorem C04_compiled_exact : forall re_ok env xs os,
+  zero_std env = true -> forallb x_wf xs = true ->
+  compile_object re_ok env xs = Ok os ->
+  (read_xprops env os = Ok (norm_xobject env xs) <-> forallb xrt_ok xs = true).
+Proof. exact c04_xobject_exact. Qed.
+Print Assumptions C04_compiled_exact.
+
+Theorem C04_compiled_property_exact : forall re_ok env idx x o,
+  zero_std env = true -> x_wf x = true ->
+  compile_prop re_ok env idx x = Ok o ->
+  (read_xprop env o = Ok (norm_xprop env idx x) <-> xrt_ok x = true).
+Proof. exact c04_xprop_exact. Qed.
+Print Assumptions C04_compiled_property_exact.
+
+(* the validity premise ("valid j5s packages"): a compiled object has pairwise different
+   proto field names; two properties whose names agree up to strcase.ToSnake (fooBar /
+   foo_bar, the same name twice) never compile together — the writer alone (write_object)
+   would emit them *)
+Theorem C04_compiled_names_distinct : forall re_ok env xs os,
+  compile_object re_ok env xs = Ok os -> NoDup (proto_names xs).
+Proof. exact compile_object_names. Qed.
+Print Assumptions C04_compiled_names_distinct.
+
+Theorem C04_snake_collision_rejected : forall re_ok env xs a b i j,
+  nth_error xs i = Some a -> nth_error xs j = Some b -> i <> j ->
+  to_snake (p_name (x_prop a)) = to_snake (p_name (x_prop b)) ->
+  forall os, compile_object re_ok env xs <> Ok os.
+Proof. exact compile_object_collision. Qed.
+Print Assumptions C04_snake_collision_rejected.
+
+Example C04_snake_collision_example :
+  let s n := XP (P n false false (PSingle (TStr None None None)) []) None None in
+  (* fooBar, foo_bar *)
+  compile_object (fun _ => true) (EE [] None []) [s [102;111;111;66;97;114]; s [102;111;111;95;98;97;114]]
+  = Err "symbol already defined".
+Proof. vm_compute. reflexivity. Qed.
+
+(* rules.multipleOf: never compiled (a compile error since /repo c0895b5; before, the
+   writer dropped it and the rules read back empty) *)
+Theorem C04_multiple_of_not_compiled : forall re_ok env idx x,
+  x_mult x <> None -> exists e, compile_prop re_ok env idx x = Err e.
+Proof. exact compile_multiple_of_refused. Qed.
+Print Assumptions C04_multiple_of_not_compiled.
+
+(* map { ext.singleForm = "thing" }: written to (j5.ext.v1.field).map since /repo ac980f9
+   and read back *)
+Example C04_map_single_form_reads_back :
+  let env := EE [] None [] in
+  let x := XP (P [109] false false (PMap None (TStr None None None)) []) None (Some (Some [116;104;105;110;103])) in
+  x_wf x = true /\ xrt_ok x = true /\
+  exists o, compile_prop (fun _ => true) env 0 x = Ok o /\
+            fo_ext o = Some (XMap (Some [116;104;105;110;103])) /\
+            read_xprop env o = Ok (norm_xprop env 0 x).
+Proof.
+  cbv zeta. split; [vm_compute; reflexivity|]. split; [vm_compute; reflexivity|].
+  eexists. split; [vm_compute; reflexivity|]. split; vm_compute; reflexivity.
+Qed.
+
+(* a description with a paragraph break ("a", blank line, "b") is inside the fragment since
+   /repo f0aec6c (the reader keeps blank lines between two lines of a comment block); a
+   leading blank line is still dropped *)
+Example C04_description_paragraphs_read_back :
+  let env := EE [] None [] in
+  let d := P [97] false false (PSingle (TStr None None None)) [97;10;10;98] in
+  rt_ok d = true /\
+  (exists o, write_prop env 0 d = Ok o /\ read_prop env o = Ok (norm_prop env 0 d)) /\
+  desc_plain [10;97] = false /\ clean_desc [97;10;10;10;98;10] = [97;10;10;10;98].
+Proof.
+  cbv zeta. split; [vm_compute; reflexivity|]. split.
+  - eexists. split; [vm_compute; reflexivity|]. vm_compute. reflexivity.
+  - split; vm_compute; reflexivity.
+Qed.
 
 (* root schemas — for every object and every oneof: kind, name, description and the
    properties (norm_root: kind / name / description as declared, properties in normal
@@ -300,15 +379,28 @@ Example C04_enum_example :
   map (fun o => fst (fst (fst o))) (re_options (norm_enum e)) = [[85;78;83;80;69;67;73;70;73;69;68]; [82]; [71]].
 Proof. cbv zeta. repeat split; vm_compute; reflexivity. Qed.
 
-(* ... except when the explicit first option is some other name ending in
-   UNSPECIFIED: the reader derives the prefix from it *)
-Theorem C04_enum_unspecified_refuted :
+(* a first option that merely ENDS in UNSPECIFIED (X_UNSPECIFIED) is an ordinary option
+   since /repo a65e1f2 (isExplicitZero): value 0 stays C_UNSPECIFIED, X_UNSPECIFIED = 1,
+   R = 2, and the enum reads back as declared (before, the writer took it for value 0 and
+   the reader derived the prefix "C_X_" from it: a known finding, now fixed) *)
+Example C04_enum_other_unspecified_reads_back :
+  let e := ED [] [67;95] [([88;95;85;78;83;80;69;67;73;70;73;69;68], [], []); ([82], [], [])] [] in
+  enum_rt e = true /\ read_enum (write_enum e) = Ok (norm_enum e) /\
+  map (fun o => snd (fst (fst o))) (re_options (norm_enum e)) = [0%Z; 1%Z; 2%Z].
+Proof. cbv zeta. repeat split; vm_compute; reflexivity. Qed.
+
+(* the one class left outside [unspec_ok]: the prefix is itself a non-empty prefix of
+   "UNSPECIFIED" (`enum Un { prefix = "UN"  option UNSPECIFIED  option R }`): the compiler
+   does not take UNSPECIFIED for the zero value (enumValueName leaves it alone, it is not
+   "UN" ++ "UNSPECIFIED"), emits UNUNSPECIFIED = 0, UNSPECIFIED = 1, UNR = 2, and the
+   reader trims "UN" from UNSPECIFIED (reproduced on the real compiler; degenerate) *)
+Theorem C04_enum_prefix_of_unspecified_refuted :
   exists e, read_enum (write_enum e) <> Ok (norm_enum e).
 Proof.
-  exists (ED [] [67;95] [([88;95;85;78;83;80;69;67;73;70;73;69;68], [], []); ([82], [], [])] []).
+  exists (ED [] [85;78] [([85;78;83;80;69;67;73;70;73;69;68], [], []); ([82], [], [])] []).
   vm_compute. discriminate.
 Qed.
-Print Assumptions C04_enum_unspecified_refuted.
+Print Assumptions C04_enum_prefix_of_unspecified_refuted.
 
 (* ... or when a description has a line the reader's commentDescription drops ("# ...") *)
 Theorem C04_enum_description_refuted :
